@@ -72,6 +72,14 @@ type FThenAny struct {
 
 // containers of interfaces followed by registered containers of concrete elements: the siblings use
 // the same state.child
+type FAfterL struct { // smallest witness for the registered slice loop
+	G []any
+	L FI16List
+}
+type FAfterA struct { // ... and the registered array loop
+	G []any
+	A FStrArr
+}
 type FSib struct {
 	G  []any
 	L  HList
@@ -108,7 +116,7 @@ type FNest struct {
 
 var flagValues = []any{FMapAnyI8{}, FMapAnyStr{}, FMapAnyPt{}, FMapAnyL{}, FMapErrI16{}, FMapStrAny{}, FMapAtomErr{}, FMapAnyAny{},
 	FAnyArr{}, FErrList{}, FI16List{}, FStrArr{}, FPtList{},
-	FAnyThen{}, FErrThen{}, FAlt{}, FThenAny{}, FSib{}, FSib2{}, FNest{}}
+	FAnyThen{}, FErrThen{}, FAlt{}, FThenAny{}, FAfterL{}, FAfterA{}, FSib{}, FSib2{}, FNest{}}
 
 var flagShorts []string // filled by registerAll
 
@@ -184,30 +192,34 @@ func flagValue(short string, nilIface bool) *V {
 		return vList(iface(tPrim("PUint8"), vUint(200)), vInt(-128), iface(tReg("HPoint"), vPoint(1, 1)), vStr("mid"), ierr("alt"), vUint(255), iface(tMap(str, i8), vMap([2]*V{vStr("m"), vInt(1)})))
 	case "FThenAny":
 		return vList(vStr("first"), vInt(-5), iface(tPrim("PBool"), vBool(false)), ierr("last"))
+	case "FAfterL":
+		return vList(vList(iface(str, vStr("x"))), vList(vInt(7)))
+	case "FAfterA":
+		return vList(vList(iface(str, vStr("x"))), vList(vStr("p"), vStr("q")))
 	case "FSib":
 		return vList(
-			vList(iface(i8, vInt(1)), iface(str, vStr("g"))), // G []any
-			vList(vInt(100), vInt(-100)),                     // L HList
-			flagValue("FAnyArr", nilIface),                   // RA
-			vList(vUint(1), vUint(2), vUint(65535)),          // Ar HArr
-			vMap([2]*V{vStr("gm"), iface(i16, vInt(-1))}),    // GM map[string]any
-			vMap([2]*V{vStr("pt"), vPoint(5, 6)}),            // M HMap
+			vList(iface(i8, vInt(1)), iface(str, vStr("g"))),                             // G []any
+			vList(vInt(100), vInt(-100)),                                                 // L HList
+			flagValue("FAnyArr", nilIface),                                               // RA
+			vList(vUint(1), vUint(2), vUint(65535)),                                      // Ar HArr
+			vMap([2]*V{vStr("gm"), iface(i16, vInt(-1))}),                                // GM map[string]any
+			vMap([2]*V{vStr("pt"), vPoint(5, 6)}),                                        // M HMap
 			vList(iface(tPrim("PAtom"), vStr("abc")), iface(tPrim("PUint16"), vUint(7))), // RL HAnyList
-			flagValue("FI16List", nilIface),                  // L2
-			flagValue("FMapStrAny", nilIface),                // RM
-			flagValue("FMapAnyI8", false),                    // M2 (a nil interface is a fine key too, but keep the witness)
-			flagValue("FStrArr", nilIface),                   // SA
-			flagValue("FPtList", nilIface))                   // PL
+			flagValue("FI16List", nilIface),                                              // L2
+			flagValue("FMapStrAny", nilIface),                                            // RM
+			flagValue("FMapAnyI8", false),                                                // M2 (a nil interface is a fine key too, but keep the witness)
+			flagValue("FStrArr", nilIface),                                               // SA
+			flagValue("FPtList", nilIface))                                               // PL
 	case "FSib2":
 		return vList(
-			vList(iface(i8, vInt(-1))),                 // RL HAnyList
-			flagValue("FI16List", nilIface),            // L
-			flagValue("FAnyArr", nilIface),             // RA
-			flagValue("FStrArr", nilIface),             // SA
-			vList(iface(tPrim("PBool"), vBool(true))),  // GA [1]any
-			vList(vUint(3), vUint(2), vUint(1)),        // Ar HArr
-			flagValue("FMapAnyAny", nilIface),          // RM
-			vMap([2]*V{vStr("k"), vPoint(-9, 9)}))      // M HMap
+			vList(iface(i8, vInt(-1))),                // RL HAnyList
+			flagValue("FI16List", nilIface),           // L
+			flagValue("FAnyArr", nilIface),            // RA
+			flagValue("FStrArr", nilIface),            // SA
+			vList(iface(tPrim("PBool"), vBool(true))), // GA [1]any
+			vList(vUint(3), vUint(2), vUint(1)),       // Ar HArr
+			flagValue("FMapAnyAny", nilIface),         // RM
+			vMap([2]*V{vStr("k"), vPoint(-9, 9)}))     // M HMap
 	case "FNest":
 		return vList(flagValue("FAnyThen", nilIface), vInt(-1), flagValue("FSib2", nilIface), flagValue("FAlt", nilIface), vStr("t"),
 			flagValue("FMapAnyI8", nilIface), flagValue("FThenAny", nilIface))
@@ -217,7 +229,8 @@ func flagValue(short string, nilIface bool) *V {
 
 // deterministic cases: every flag type x {non-nil, nil interface values} x {no reg cache, reg cache} x
 // {top level, element of a generic slice / array / map, dynamic value of an interface inside []any,
-//  field of FNest}
+//
+//	field of FNest}
 func flagCorpus() []Case {
 	var cs []Case
 	str := tPrim("PString")
